@@ -259,3 +259,48 @@ func vfH_C04_params(tier int) {
 	}
 	vfReach("C04_params/ok")
 }
+
+// numerals: any sign prefix, digit strings around the int64 / uint64 boundaries and short ones, any
+// suffix that keeps it a numeral, in the positions a number can take. Exact library models (no loose mode):
+// which branch ParseInt / ParseUint / ParseFloat take is decided by the digits.
+func vfH_C04_numbers(tier int) {
+	signs := []string{"", "-", "+", "- ", "+ ", "-+"}
+	sign := signs[vfChoice(len(signs))]
+	// the digit string: two symbolic digits after a prefix that puts the value around the
+	// boundaries of int64 and uint64 (or nowhere near them) - every numeral of these 400 is covered
+	prefixes := []string{"", "92233720368547758", "184467440737095516", "999999999999999999"}
+	pre := prefixes[vfChoice(len(prefixes))]
+	ds := []byte(pre)
+	nsym := 2
+	if pre == "" {
+		nsym = 1 + vfChoice(2)
+	}
+	for i := 0; i < nsym; i++ {
+		ds = append(ds, vfDigit())
+	}
+	sufs := []string{"", "s", "u"} // float spellings are parsed by strconv.ParseFloat, which has no symbolic model
+	suf := sufs[vfChoice(len(sufs))]
+	num := sign + string(ds) + suf
+	frames := [][2]string{{"SELECT ", " FROM m"}, {"SELECT a FROM m WHERE v < ", ""}, {"SELECT a FROM m GROUP BY time(1s) fill(", ")"},
+		{"SELECT a FROM m LIMIT ", ""}, {"SELECT a FROM m GROUP BY time(", ")"}, {"SELECT f(a, ", ") FROM m"}}
+	if tier == 0 {
+		frames = frames[:3]
+	}
+	fr := frames[vfChoice(len(frames))]
+	text := fr[0] + num + fr[1]
+	vfNote(text)
+	var s Statement
+	var err error
+	panicked, _ := vfCatch(func() { s, err = ParseStatement(text) })
+	vfAssert(!panicked, "C04/numbers/parsing-a-numeral-does-not-panic")
+	if panicked {
+		return
+	}
+	vfAssert(err != nil || s != nil, "C04/numbers/result-or-error")
+	if err == nil && s != nil {
+		// walking only: printing numbers and durations is C02's and C08's subject
+		p2, _ := vfCatch(func() { WalkFunc(s, func(Node) {}) })
+		vfAssert(!p2, "C04/numbers/returned-statement-can-be-walked")
+	}
+	vfReach("C04_numbers/ok")
+}
